@@ -38,7 +38,7 @@ PROPS = {
                   ("storage", dict(quick=40, thorough=800), {}),
                   ("cascade", dict(quick=40, thorough=800), {}),
                   ("queries", dict(quick=20, thorough=300), {})],
-        channels=ALL, builds=["debug", "release"], snap=False,
+        channels=ALL, builds=["debug", "release"], builds_thorough=["debug", "release", "asan"], snap=False,
         rule="history reaches a handler invocation and at least one structural move, removal or panic",
         nontrivial=both(has(r"^t h "), either(has(r"^panic "), has(r"^(remove|despawn|rmc)"))),
     ),
